@@ -4,6 +4,7 @@ from __future__ import annotations
 
 import copy
 import pickle
+from collections import OrderedDict
 
 import optree
 
@@ -62,6 +63,22 @@ def members_for(tree, dsl, tier, U):  # noqa: C901
                         coll, none_is_leaf=cfg['nil'], namespace=cfg['ns']))
                     if r[0] == 'ok':
                         fam.append((f'from_collection[{tag}]', r[1], key, cfg['nil']))
+                    # the kind's own constructor, fed with a container of ANOTHER class holding the same items in order
+                    opt = {'none_is_leaf': cfg['nil'], 'namespace': cfg['ns']}
+                    ctor = {
+                        'dict': lambda: optree.treespec_dict(OrderedDict(coll.items()), **opt),
+                        'odict': lambda: optree.treespec_ordereddict(list(coll.items()), **opt),
+                        'ddict': lambda: optree.treespec_defaultdict(coll.default_factory, OrderedDict(coll.items()), **opt),
+                        'tuple': lambda: optree.treespec_tuple(iter(spec.children()), **opt),
+                        'list': lambda: optree.treespec_list(tuple(spec.children()), **opt),
+                        'deque': lambda: optree.treespec_deque(list(spec.children()), maxlen=d.meta, **opt),
+                    }.get(d.kind)
+                    if ctor is not None:
+                        r = outcome_of(ctor)
+                        if r[0] == 'ok':
+                            fam.append((f'constructor-other-argument-class[{tag}]', r[1], key, cfg['nil']))
+                        else:
+                            ctx.violation('constructor-raises', f'{PROP}:constructor-raises', {'tree': dsl, 'cfg': cfg}, repr(r))
                     it = iter(spec.children())
                     fam.append((f'one_level+children[{tag}]',
                                 spec.one_level().transform(None, lambda _s: next(it)), key, cfg['nil']))
